@@ -1407,6 +1407,17 @@ func (ctx *RenderContext) getAttribute(obj interface{}, attr string) (interface{
 		return nil, nil
 	}
 
+	// Maps keyed by an interface type (map[interface{}]interface{}, as YAML decoders produce)
+	// can hold string keys too: x.name reads that key, like x['name'] does
+	if objValue.Kind() == reflect.Map && objValue.Type().Key().Kind() == reflect.Interface &&
+		reflect.TypeOf(attr).AssignableTo(objValue.Type().Key()) {
+		value := objValue.MapIndex(reflect.ValueOf(attr))
+		if value.IsValid() && value.CanInterface() {
+			return value.Interface(), nil
+		}
+		return nil, nil
+	}
+
 	// Only use caching for struct types
 	if objValue.Kind() != reflect.Struct {
 		// Instead of returning an error for non-struct types, return nil
